@@ -452,20 +452,40 @@ def field_reads(F, owner, name):
     return out
 
 
-def direct_place(b, op, depth=8):
+def direct_place(b, op, depth=12):
     """Follow single-definition copies, moves, reborrows and casts from an operand back to the place it
-    denotes (no slicing): returns the place or None."""
+    denotes (no slicing): returns the place or None.  Steps through `*r` when r is a single-definition reference to a
+    place, and through a field of a single-definition aggregate (tuple, struct literal, closure environment: a
+    captured variable resolves to what the creating code captured)."""
     pl = op_place(op) if isinstance(op, dict) and ("c" in op or "m" in op) else op
     if isinstance(pl, dict) and "p" not in pl:
         return None  # a constant operand
     while pl is not None and depth > 0:
         depth -= 1
-        if any(isinstance(e, dict) and "f" in e for e in pl["p"]):
+        p = pl["p"]
+        sd = b.single_def(pl["l"]) if pl["l"] > b.arg_count else None
+        rv = (sd[3].get("rv") or {}) if (sd and sd[0] == "stmt" and not sd[3]["lhs"]["p"]) else {}
+        if p and p[0] == "*" and "ref" in rv:
+            pl = {"l": rv["ref"]["l"], "p": list(rv["ref"]["p"]) + list(p[1:]), "ty": pl.get("ty", "")}
+            continue
+        if p and p[0] == "*" and "use" in rv and op_place(rv["use"]) is not None and not b.local_name(pl["l"]):
+            src = op_place(rv["use"])
+            pl = {"l": src["l"], "p": list(src["p"]) + list(p), "ty": pl.get("ty", "")}
+            continue
+        if p and isinstance(p[0], dict) and "f" in p[0] and rv.get("agg") in ("tuple", "closure", "adt") and \
+                p[0]["f"] < len(rv.get("ops", ())) and not b.has_partial_writes(pl["l"]) and "vi" not in rv:
+            o = rv["ops"][p[0]["f"]]
+            npl = op_place(o)
+            if npl is None:
+                return None
+            pl = {"l": npl["l"], "p": list(npl["p"]) + list(p[1:]), "ty": pl.get("ty", "")}
+            continue
+        if any(isinstance(e, dict) and "f" in e for e in p):
             return pl
-        sd = b.single_def(pl["l"])
         if not sd or sd[0] != "stmt" or b.local_name(pl["l"]):
             return pl
-        rv = sd[3].get("rv") or {}
+        if p:
+            return pl
         if "ref" in rv:
             pl = rv["ref"]
         elif "use" in rv and op_place(rv["use"]) is not None:
@@ -545,3 +565,47 @@ def origin(b, op, depth=16):
         else:
             return ("rv", rv)
     return None
+
+
+def reach_with_bool_consts(b, start, stop=()):
+    """blocks reachable from `start` when bool temporaries that were assigned a constant on the way decide the
+    switches on them (the shape of `matches!(x, A | B)` followed by `if`): returns the set of blocks.  Exploration
+    stops at blocks in `stop` (e.g. the loop header) and never enters cleanup blocks."""
+    from .facts import op_const as _oc
+    seen = set()
+    out = set()
+    work = [(start, ())]
+    while work:
+        bb, known = work.pop()
+        key = (bb, known)
+        if key in seen or bb in stop:
+            continue
+        seen.add(key)
+        out.add(bb)
+        kn = dict(known)
+        for st in b.stmts(bb):
+            if st["k"] == "assign" and not st["lhs"]["p"]:
+                l = st["lhs"]["l"]
+                rv = st.get("rv") or {}
+                k = _oc(rv["use"]) if "use" in rv else None
+                if k is not None and k.get("ty") == "bool":
+                    kn[l] = 1 if k.get("v") == "true" else 0
+                elif l in kn:
+                    del kn[l]
+        t = b.term(bb)
+        if t["k"] == "call" and not t["dest"]["p"] and t["dest"]["l"] in kn:
+            del kn[t["dest"]["l"]]
+        nxt = None
+        if t["k"] == "switch":
+            neg, src = b.switch_source(bb)
+            if src[0] == "place" and is_bare(src[1]) and src[1]["l"] in kn:
+                v = kn[src[1]["l"]]
+                v = (1 - v) if neg else v
+                tb = [x for val, x in t["targets"] if val == v]
+                nxt = [tb[0]] if tb else ([t["otherwise"]] if t["otherwise"] is not None else [])
+        if nxt is None:
+            nxt = [s for s in b.succ(bb) if not b.is_cleanup(s)]
+        fk = tuple(sorted(kn.items()))
+        for s in nxt:
+            work.append((s, fk))
+    return out
